@@ -332,7 +332,13 @@ func c10Oracle(c *fw.Ctx, w *vs.World, name string, prm c10Params, st *c10State)
 // ---- concurrent calls, each with its own context
 
 type c10ConcParams struct {
-	K      connCfg
+	K connCfg
+	// A: first call, blocked by the transport's small window.
+	//   WB (default) one Write of 100 bytes
+	//   WS a streaming Writer: Write(50), Write(50), Close (holds the message lock across steps)
+	//   WH a streaming Writer whose first chunk fills the 4096-byte write buffer exactly,
+	//      so that the next frame's header is what gets flushed: Write(4092|4088), Write(10), Close
+	A      string
 	B      string // second call: P (Ping) | W (Write) | R (Read, silent peer)
 	Cancel string // A | B | AB : whose context gets cancelled
 	Drain  bool   // the peer opens its window at a scheduler-chosen moment
@@ -343,7 +349,11 @@ func (p c10ConcParams) name() string {
 	if p.Drain {
 		d = "-drain"
 	}
-	return fmt.Sprintf("cc/WB+%s/cancel%s%s/%s", p.B, p.Cancel, d, p.K.String())
+	a := p.A
+	if a == "" {
+		a = "WB"
+	}
+	return fmt.Sprintf("cc/%s+%s/cancel%s%s/%s", a, p.B, p.Cancel, d, p.K.String())
 }
 
 func c10ConcSetup(prm c10ConcParams) func(c *fw.Ctx, name string) explore.Setup {
@@ -352,7 +362,11 @@ func c10ConcSetup(prm c10ConcParams) func(c *fw.Ctx, name string) explore.Setup 
 			st := &c10State{p: vpipe.New()}
 			st.p.Window = 8
 			k := prm.K
-			ops := []string{"WB", prm.B}
+			opA := prm.A
+			if opA == "" {
+				opA = "WB"
+			}
+			ops := []string{opA, prm.B}
 			for _, op := range ops {
 				st.calls = append(st.calls, &c10Call{op: op})
 			}
@@ -391,6 +405,25 @@ func c10ConcSetup(prm c10ConcParams) func(c *fw.Ctx, name string) explore.Setup 
 						switch op {
 						case "WB":
 							cl.err = conn.Write(ctxs[i], websocket.MessageBinary, fill(0xA1, 100))
+						case "WS", "WH":
+							chunks := []int{50, 50}
+							if op == "WH" {
+								first := 4092 // server: 4-byte header + 4092 = 4096
+								if k.Client {
+									first = 4088 // client: 8-byte header
+								}
+								chunks = []int{first, 10}
+							}
+							var wr io.WriteCloser
+							wr, cl.err = conn.Writer(ctxs[i], websocket.MessageBinary)
+							for _, n := range chunks {
+								if cl.err == nil {
+									_, cl.err = wr.Write(fill(0xA3, n))
+								}
+							}
+							if cl.err == nil {
+								cl.err = wr.Close()
+							}
 						case "W":
 							cl.err = conn.Write(ctxs[i], websocket.MessageText, fill(0xA2, 5))
 						case "P":
@@ -486,7 +519,7 @@ func c10Api(op string) string {
 	case 'P':
 		return "Ping"
 	}
-	if op == "WM" {
+	if op == "WM" || op == "WS" || op == "WH" {
 		return "Writer"
 	}
 	return "Write"
@@ -549,6 +582,20 @@ func c10Scenarios(tier string) []scenario {
 					}
 					prm := c10ConcParams{K: k, B: b, Cancel: cs, Drain: dr}
 					scs = append(scs, scenario{Name: prm.name(), Cfg: cfg, Setup: c10ConcSetup(prm), Group: fmt.Sprintf("cc/%s/%s/%s/%v", k.String(), b, cs, dr)})
+				}
+			}
+		}
+		// the first call is a streaming Writer
+		for _, a := range []string{"WS", "WH"} {
+			for _, b := range []string{"W", "P"} {
+				for _, cs := range []string{"A", "B", "AB"} {
+					for _, dr := range []bool{false, true} {
+						if tier != "thorough" && (dr || cs == "AB" || (a == "WH" && b == "W")) {
+							continue
+						}
+						prm := c10ConcParams{K: k, A: a, B: b, Cancel: cs, Drain: dr}
+						scs = append(scs, scenario{Name: prm.name(), Cfg: cfg, Setup: c10ConcSetup(prm), Group: fmt.Sprintf("cc/%s/%s/%s", k.String(), a, b)})
+					}
 				}
 			}
 		}
